@@ -1035,8 +1035,11 @@ def search(ctx, hints):
         for key, what, obs, req in bad:
             vs.append(Violation(key, what, dict(it, n=info.get("n", 0)), obs, req))
     best = {}
+
+    def rank(v):        # prefer the plainest witness: string labels, then the smallest training set
+        return (0 if v.input.get("labels") == "str" else 1, v.input.get("n", 0))
     for v in vs:
-        if v.key not in best or v.input.get("n", 0) < best[v.key].input.get("n", 0):
+        if v.key not in best or rank(v) < rank(best[v.key]):
             best[v.key] = v
     return list(best.values()), {"evaluations": evals, "distinct_nontrivial": len(nontriv), "samples": samples}
 
